@@ -197,13 +197,13 @@ def arg_vectors(m, recv):
     return out
 
 
-def receivers(seed):
+def receivers(seed, nlong=60):
     recs = []
     for n in range(0, 4):
         for t in itertools.product(E8, repeat=n):
             recs.append(list(t))
     rnd = random.Random(core.shard_seed(seed, ID, "recv"))
-    for _ in range(60):
+    for _ in range(nlong):
         n = rnd.randint(4, 6)
         recs.append([rnd.choice(E8) for _ in range(n)])
     return recs
@@ -275,7 +275,7 @@ def grid_cases(chk, methods, guards):
     """All cases of the tier (quick: a seeded 1/16 sample), in a fixed order."""
     rnd = random.Random(core.shard_seed(chk.seed, ID, "gridsample"))
     keep = 1.0 if chk.tier == "thorough" else 1.0 / 16
-    recvs = receivers(chk.seed)
+    recvs = receivers(chk.seed, 60 if chk.tier == "quick" else 200)
     srecvs = sort_receivers(chk.seed)
     unmodelled = []
     total = 0
@@ -337,9 +337,15 @@ def judge_sort(case, exp, ctx, before, act):
         if res[1][0] != "arr" or res[1][1] != -1 or recv != exp[1]:
             return act, "result not fresh / receiver changed"
         after_cv = res[1][2]
+    cmp_spec = case["args"][0] if case["args"] else U
+    if cmp_spec[0] == "cb" and G.CALLBACKS[cmp_spec[1]][2]:
+        # a comparator that modifies the receiver (it is consistent): the result is unique, only the
+        # number and order of comparator calls is the implementation's business
+        if all(len(e) == 4 and e[3] == ["u"] and e[0] != ["u"] and e[1] != ["u"] for e in log) and (len(log) > 0) == (len(exp[2]) > 0):
+            return [res, recv, exp[2]], None
+        return act, "comparator call"
     recs = [o for o in before if isinstance(o, R.Obj)]
     after = [G.model_from_cv(c, ctx.reg, recs) for c in after_cv]
-    cmp_spec = case["args"][0] if case["args"] else U
     ctx2 = G.CaseCtx()
     cmp_fn = UNDEF if cmp_spec == U else G.callback_model(cmp_spec[1], ctx2, logging=False)
     c = R.compare_with(R.Env(), cmp_fn)
